@@ -125,6 +125,14 @@ func (s *Solver) Check(extra *Term) string {
 	}
 	s.send("(check-sat)")
 	res := s.readLine()
+	if res == "unknown" && !s.isCVC5 {
+		// most often the 5 s wall-clock cap hit while every core is busy: ask once more with
+		// a generous cap before giving the path up as inconclusive
+		s.send("(set-option :timeout 60000)")
+		s.send("(check-sat)")
+		res = s.readLine()
+		s.send("(set-option :timeout 5000)")
+	}
 	if extra != nil {
 		s.send("(pop 1)")
 	}
